@@ -31,6 +31,7 @@ func regCmd(args []string) error {
 	out := fs.String("out", "", "trace file")
 	snap := fs.Bool("snap", true, "record a state snapshot after every step")
 	record := fs.Bool("record", true, "record the backend calls behind stacks with an HTTP hop")
+	replay := fs.String("replay", "", "re-execute the scenarios stored in this trace file (a replay file written by a check)")
 	pre := fs.Int("pre", 0, "apply the first N ops of each scenario directly to the in-memory registry underneath the stack")
 	honest := fs.Bool("honest", false, "uploads only as a well-behaved caller drives them (needed for stacks with an HTTP hop)")
 	fs.Parse(args)
@@ -46,12 +47,26 @@ func regCmd(args []string) error {
 	enc := json.NewEncoder(bw)
 	rnd := rand.New(rand.NewSource(*seed))
 	var cat *Catalog
-	if *catKind == "mc" || *scen != "" {
-		cat = mcCatalog()
-	} else {
-		cat = randCatalog(rnd, 4, 4, 9, 12, strings.Contains(*stacks, "http"))
+	catMeta := ev{"kind": "mc"}
+	if *replay != "" {
+		// rebuild the catalogue the stored scenario was recorded with
+		m, err := replayMeta(*replay)
+		if err != nil {
+			return err
+		}
+		catMeta = m
+	} else if !(*catKind == "mc" || *scen != "") {
+		catMeta = ev{"kind": "rand", "seed": float64(*seed), "big": strings.Contains(*stacks, "http")}
 	}
-	enc.Encode(cat.header())
+	if catMeta["kind"] == "rand" {
+		cs := int64(catMeta["seed"].(float64))
+		cat = randCatalog(rand.New(rand.NewSource(cs*7919+1)), 4, 4, 9, 12, catMeta["big"] == true)
+	} else {
+		cat = mcCatalog()
+	}
+	hdr := cat.header()
+	hdr["catmeta"] = catMeta
+	enc.Encode(hdr)
 	stackList := strings.Split(*stacks, ";")
 	total := 0
 	run := func(sc Scenario) error {
@@ -106,6 +121,18 @@ func regCmd(args []string) error {
 		total++
 		return nil
 	}
+	if *replay != "" {
+		scs, err := regReplayScenarios(*replay)
+		if err != nil {
+			return err
+		}
+		for _, s := range scs {
+			*pre = s.pre
+			if err := run(s.sc); err != nil {
+				return err
+			}
+		}
+	}
 	if *scen != "" {
 		sf, err := os.Open(*scen)
 		if err != nil {
@@ -153,4 +180,85 @@ func minChunkOf(stack string, env *stackEnv) int {
 		return env.minChunk
 	}
 	return 8192
+}
+
+type regReplayScenario struct {
+	sc  Scenario
+	pre int
+}
+
+func replayMeta(path string) (ev, error) {
+	f, err := os.Open(path)
+	if err != nil {
+		return nil, err
+	}
+	defer f.Close()
+	sc := bufio.NewScanner(f)
+	sc.Buffer(make([]byte, 1<<20), 1<<28)
+	if !sc.Scan() {
+		return nil, fmt.Errorf("empty replay file")
+	}
+	var hdr struct {
+		Catmeta ev `json:"catmeta"`
+	}
+	if err := json.Unmarshal(sc.Bytes(), &hdr); err != nil {
+		return nil, err
+	}
+	if hdr.Catmeta == nil {
+		return ev{"kind": "mc"}, nil
+	}
+	return hdr.Catmeta, nil
+}
+
+// regReplayScenarios reads the scenarios (reset line, then one event per call) of a stored trace
+// back into scenarios: the calls with their arguments, on the same stack and configuration.
+func regReplayScenarios(path string) ([]regReplayScenario, error) {
+	f, err := os.Open(path)
+	if err != nil {
+		return nil, err
+	}
+	defer f.Close()
+	sc := bufio.NewScanner(f)
+	sc.Buffer(make([]byte, 1<<20), 1<<28)
+	var out []regReplayScenario
+	first := true
+	for sc.Scan() {
+		if first {
+			first = false
+			continue
+		}
+		var e struct {
+			Op
+			Stack  string `json:"stack"`
+			Imm    bool   `json:"imm"`
+			Direct bool   `json:"direct"`
+			InOp   string `json:"inop"`
+		}
+		if err := json.Unmarshal(sc.Bytes(), &e); err != nil {
+			return nil, err
+		}
+		switch e.Op.Op {
+		case "reset":
+			out = append(out, regReplayScenario{sc: Scenario{Imm: e.Imm, Stack: e.Stack}})
+		case "snap":
+		default:
+			if len(out) == 0 {
+				continue
+			}
+			cur := &out[len(out)-1]
+			op := e.Op
+			if op.Op == "panic" {
+				op.Op = e.InOp
+			}
+			if op.Op == "skip" {
+				continue
+			}
+			op.StartPos = 0 // the concrete start string is stored
+			if e.Direct && cur.pre == len(cur.sc.Ops) {
+				cur.pre++
+			}
+			cur.sc.Ops = append(cur.sc.Ops, op)
+		}
+	}
+	return out, sc.Err()
 }
